@@ -12,14 +12,14 @@ SHAPE = dict(HdrLen=8, Peek=9, Slack=0, LoseTail=False)          # the pinned tr
 NONE = Tla("{}")
 
 
-def dec_consts(streams, cuts, max_run=1, **kw):
-    c = dict(SHAPE, Side="dec", Streams=streams, Cuts=cuts, MaxRun=max_run, Scripts=NONE, MaxIdle=0)
+def dec_consts(streams, **kw):
+    c = dict(SHAPE, Side="dec", Streams=streams, Scripts=NONE)
     c.update(kw)
     return c
 
 
-def sb_consts(scripts, cuts, max_run=1, max_idle=2, **kw):
-    c = dict(SHAPE, Side="sb", Streams=NONE, Cuts=cuts, MaxRun=max_run, Scripts=scripts, MaxIdle=max_idle)
+def sb_consts(scripts, **kw):
+    c = dict(SHAPE, Side="sb", Streams=NONE, Scripts=scripts)
     c.update(kw)
     return c
 
@@ -39,12 +39,16 @@ def catalog(ctx, names):
     return cat, msgs
 
 
-def stream(cat, names, max_size, big=None):
-    """a stream of catalog frames; big = (name, declared, len) appends an oversize frame"""
+def stream(cat, names, max_size, cuts, run=1, big=None):
+    """a stream of catalog frames with its segmentation mode; big = (name, declared, len) appends an oversize frame"""
     fr = [{"id": i + 1, "kind": n, "size": cat[n]["size"], "len": cat[n]["len"]} for i, n in enumerate(names)]
     if big:
         fr.append({"id": len(fr) + 1, "kind": big[0], "size": big[1], "len": big[2]})
-    return {"frames": fr, "max": max_size}
+    return {"frames": fr, "max": max_size, "cuts": cuts, "run": run}
+
+
+def script(msgs, cuts, run=1, idle=0):
+    return {"msgs": msgs, "cuts": cuts, "run": run, "idle": idle}
 
 
 def take(cases, n, seed):
@@ -97,18 +101,18 @@ def drift(cases, obs_path, fields):
 def run(ctx):
     q = ctx.quick
     # ------------------------------------------------------------------ 1. the design and its monitor, model checked
+    inv = ["C11", "Progress", "RunEquiv"]
     abs2 = Tla("AbstractStreams({3, 4, 5, 6}, 3, 5)")                 # 2 byte header: <= 3 frames of 3..6 bytes, 6 is oversize
     abs8 = Tla("AbstractStreams({9, 10, 12}, %d, 10)" % (2 if q else 3))  # 8 byte header: frames of 9..12 bytes, 12 is oversize
-    ctx.model_check("dec_hdr2", "MCFraming", dec_consts(abs2, "all", HdrLen=2, Peek=3), ["C11", "Progress", "RunEquiv"], view="MView")
-    ctx.model_check("dec_hdr8", "MCFraming", dec_consts(abs8, "all"), ["C11", "Progress", "RunEquiv"], view="MView")
-    ctx.model_check("dev_peek7", "MCFraming", dec_consts(Tla("AbstractStreams({9, 12}, 2, 0)"), "all", Peek=7), ["C11"],
-                    view="MView", expect_violation="C11")
-    ctx.model_check("dev_slack", "MCFraming", dec_consts(Tla("AbstractStreams({9, 12}, 2, 0)"), "all", Slack=1), ["C11"],
-                    view="MView", expect_violation="C11")
-    scripts = Tla("AbstractScripts(1..5, 3, 3, %d)" % (7 if q else 10))  # every partial write sequence of <= 10 secured bytes
-    ctx.model_check("sendbuf", "MCFraming", sb_consts(scripts, "all", max_idle=1 if q else 2), ["C11", "Progress", "RunEquiv"], view="MView",
-                    timeout=1500)
-    ctx.model_check("dev_losetail", "MCFraming", sb_consts(Tla("AbstractScripts(1..4, 2, 2, 6)"), "all", LoseTail=True), ["C11"],
+    ctx.model_check("dec_hdr2", "MCFraming", dec_consts(abs2, HdrLen=2, Peek=3), inv, view="MView")
+    ctx.model_check("dec_hdr8", "MCFraming", dec_consts(abs8), inv, view="MView")
+    two = Tla("AbstractStreams({9, 12}, 2, 0)")
+    ctx.model_check("dev_peek7", "MCFraming", dec_consts(two, Peek=7), ["C11"], view="MView", expect_violation="C11")
+    ctx.model_check("dev_slack", "MCFraming", dec_consts(two, Slack=1), ["C11"], view="MView", expect_violation="C11")
+    # every sequence of partial / zero / pending writes for every script of <= 3 messages of <= 3 chunks, <= 10 (quick: 6) bytes
+    scripts = Tla("AbstractScripts(1..5, 3, 3, %d, %d)" % ((6, 1) if q else (10, 2)))
+    ctx.model_check("sendbuf", "MCFraming", sb_consts(scripts), inv, view="MView", timeout=1500)
+    ctx.model_check("dev_losetail", "MCFraming", sb_consts(Tla("AbstractScripts(1..4, 2, 2, 6, 1)"), LoseTail=True), ["C11"],
                     view="MView", expect_violation="C11")
 
     # ------------------------------------------------------------------ 2. real frames
@@ -118,49 +122,61 @@ def run(ctx):
     w3 = ["w:18000#1", "w:18000#2", "w:18000#3"]
     gens = []
 
-    def gen_dec(name, streams, cuts, max_run=1, simulate=None, limit=None):
-        h, r = ctx.gen(name, "GenFraming", dec_consts(tla_set(streams), cuts, max_run), simulate=simulate, timeout=1500,
+    def gen_dec(name, streams, simulate=None, limit=None):
+        h, r = ctx.gen(name, "GenFraming", dec_consts(tla_set(streams)), simulate=simulate, timeout=1500,
                        spec="GSpecSim" if simulate else "GSpec")
-        cs = [dec_case(x) for x in h]
-        gens.append((name, take(cs, limit, ctx.seed) if limit else cs))
+        by = {}
+        for x in h:
+            c = dec_case(x)
+            by.setdefault(name + ":" + "+".join(f["name"] for f in c["frames"]), []).append(c)
+        for k in sorted(by):
+            gens.append((k, take(by[k], limit, ctx.seed) if limit else by[k]))
 
-    # exhaustive: every segmentation of the smallest frame, and every combination of cuts next to header ends and frame ends
-    gen_dec("all_tiny12", [stream(cat, ["tiny12"], M)], "all", limit=1000 if q else None)
+    long1 = ["hel", "ack", "opn", "msg", "w:100#1", "err", "clo"]
+    long2 = ["hel0", "opn"] + w3 + ["msg", "w:9000#1", "w:9000#2", "abort", "err0"]
+    long3 = ["msg"] + w3
+    huge = ("bigmsg", 1 << 30, 40)
+    # exhaustive: every segmentation of the smallest frame; every combination of cuts next to header ends and frame ends
+    # for streams of two (thorough: three) frames incl. frames at and above the maximum; the all-single-bytes schedule
     pairs = [["tiny12", "tiny13"]] if q else [["hel", "ack"], ["err0", "msg"], ["tiny12", "tiny13"], ["opn", "clo"], ["abort", "err"]]
-    near = [stream(cat, p, M) for p in pairs] + [
-        stream(cat, ["ack"], 28),                                       # size = maximum: accepted
-        stream(cat, ["tiny13"], M, big=("bigmsg", M + 1, 16)),          # one byte above the maximum, cut short
-        stream(cat, ["err0"], 64, big=("bighel", 65, 65))]              # oversize frame present in full
+    exh = [stream(cat, ["tiny12"], M, "all")] + [stream(cat, p, M, "near") for p in pairs] + [
+        stream(cat, ["ack"], 28, "near"),                                       # size = maximum: accepted
+        stream(cat, ["tiny13"], M, "near", big=("bigmsg", M + 1, 16)),          # one byte above the maximum, cut short
+        stream(cat, ["err0"], 64, "near", big=("bighel", 65, 65)),              # oversize frame present in full
+        stream(cat, long1, M, "ones", run=100000), stream(cat, long3, M, "ones", run=100000, big=huge)]
     if not q:
-        near.append(stream(cat, ["msg"], 100, big=("bigerr", 70000, 9)))
-    gen_dec("near_pairs", near, "near", limit=2500 if q else None)
-    if not q:
-        gen_dec("near_triples", [stream(cat, ["hel", "ack", "msg"], M), stream(cat, ["tiny12", "err0", "tiny13"], M)], "near",
-                limit=60000)
+        exh += [stream(cat, ["msg"], 100, "near", big=("bigerr", 70000, 9)), stream(cat, long2, M, "ones", run=100000),
+                stream(cat, ["hel", "ack", "msg"], M, "near"), stream(cat, ["tiny12", "err0", "tiny13"], M, "near")]
+    gen_dec("exh", exh, limit=1200 if q else 50000)
     # sampled by TLC simulation: long streams of real frames, segment sizes from KSet, runs of equal reads
-    long1 = stream(cat, ["hel", "ack", "opn", "msg", "w:100#1", "err", "clo"], M)
-    long2 = stream(cat, ["hel0", "opn"] + w3 + ["msg", "w:9000#1", "w:9000#2", "abort", "err0"], M)
-    long3 = stream(cat, ["msg"] + w3, M, big=("bigmsg", 1 << 30, 40))
-    gen_dec("random", [long1, long2, long3], "sample", max_run=64, simulate="num=%d" % (100 if q else 1500))
-    # the all-single-bytes schedule
-    gen_dec("single_bytes", [long1, long2, long3] if not q else [long1, long3], "ones", max_run=100000)
+    gen_dec("sim", [stream(cat, long1, M, "sample", run=64), stream(cat, long2, M, "sample", run=64),
+                    stream(cat, long3, M, "sample", run=64, big=huge)], simulate="num=%d" % (100 if q else 1500))
 
     # send side: scripts of WriteRequests whose secured chunks have the sizes the catalog measured
     payload_of = {tuple(msgs[n]): int(n[2:]) for n in msgs if n.startswith("w:")}
     m1, m2, m3 = msgs["w:100"], msgs["w:9000"], msgs["w:18000"]
-    sgens = []
 
-    def gen_sb(name, scr, cuts, max_run=1, max_idle=1, simulate=None, limit=None):
-        h, r = ctx.gen(name, "GenFraming", sb_consts(tla_set(scr), cuts, max_run, max_idle), simulate=simulate, timeout=1500,
+    def gen_sb(name, scr, simulate=None, limit=None):
+        h, r = ctx.gen(name, "GenFraming", sb_consts(tla_set(scr)), simulate=simulate, timeout=1500,
                        spec="GSpecSim" if simulate else "GSpec")
-        cs = [sb_case(x, payload_of) for x in h]
-        sgens.append((name, take(cs, limit, ctx.seed) if limit else cs))
+        by = {}
+        for x in h:
+            c = sb_case(x, payload_of)
+            by.setdefault(name + ":" + "+".join(str(m) for m in c["msgs"]), []).append(c)
+        for k in sorted(by):
+            gens.append((k, take(by[k], limit, ctx.seed) if limit else by[k]))
 
-    gen_sb("sb_near_one", [[m2]] if q else [[m1], [m2]], "near", max_idle=1, limit=1500 if q else None)
-    gen_sb("sb_near", [[m1, m1]] if q else [[m3], [m1, m2], [m2, m2]], "near", max_idle=0, limit=1500 if q else 40000)
-    gen_sb("sb_random", [[m1, m3, m2], [m2, m2, m1], [m3, m3]], "sample", max_run=64, max_idle=4,
+    # exhaustive: every combination of writes that end 1 or 2 bytes into a chunk, in its middle, 1 byte before its end or at
+    # its end (with one pending / zero answer anywhere for the one message scripts); single byte writes
+    if q:
+        sexh = [script([m2], "near", idle=1), script([m1, m1], "near"), script([m2, m1], "ones", run=100000)]
+    else:
+        sexh = [script([m1], "near", idle=1), script([m2], "near", idle=1), script([m3], "near"), script([m1, m2], "near"),
+                script([m2, m2], "near"), script([m3, m1, m2], "ones", run=100000)]
+    gen_sb("sb_exh", sexh, limit=1200 if q else 30000)
+    gen_sb("sb_sim", [script(x, "sample", run=64, idle=4) for x in ([m1, m3, m2], [m2, m2, m1], [m3, m3])],
            simulate="num=%d" % (100 if q else 1500))
-    gen_sb("sb_single_bytes", [[m2, m1]] if q else [[m3, m1, m2]], "ones", max_run=100000, max_idle=0)
+    sgens = []
 
     # ------------------------------------------------------------------ 3. replay on the real code, 4. judge
     all_cases = []
@@ -187,9 +203,14 @@ def run(ctx):
         nsteps += n
         ndrift += nd
         firsts += first
-    nt = 0
+    nt, seen = 0, set()
     for c in all_cases:
         st = c["steps"]
+        key = canon([c["engine"], c.get("frames"), c.get("max"), c.get("msgs"),
+                     [[s.get(k) for k in ("ev", "k", "n", "r")] for s in st]])
+        if key in seen:
+            continue
+        seen.add(key)
         if c["engine"] == "framing":
             nt += any(s["ev"] == "Read" and s["buf"] > 0 for s in st)       # a read ended inside a frame
         else:
@@ -205,8 +226,9 @@ def run(ctx):
                        "of 2 (thorough: 3) real frames incl. frames at and above max_message_size, simulation-sampled segmentations of "
                        "streams of up to 10 real frames (HEL ACK ERR OPN CLO MSG, 3-chunk messages) and the all-single-bytes schedule; "
                        "partial-write schedules (near chunk start / middle / end exhaustively, sampled, single bytes) over 1..3 chunk messages; "
-                       "non-trivial = some read ends inside a frame / some write is short")
+                       "distinct by stream / script and schedule; non-trivial = some read ends inside a frame / some write is short")
     ctx.notes["cases_per_generator"] = {n: len(cs) for n, cs in gens + sgens}
+    ctx.notes["distinct_cases"] = len(seen)
     ctx.notes["steps_replayed"] = nsteps
     ctx.notes["drift"] = {"cases_with_L1_mismatch": ndrift, "first": firsts[:3]}
     ctx.notes["catalog"] = {k: v["len"] for k, v in cat.items()}
